@@ -289,7 +289,12 @@ Lemma key_const_inj J a b : key_const a = true -> key_const b = true ->
   to_key (eval J a) = to_key (eval J b) -> a = b.
 Proof.
   destruct a as [oa [|? ?]]; destruct oa; try discriminate; destruct b as [ob [|? ?]]; destruct ob; try discriminate;
-    cbn; intros _ _ E; try discriminate E; congruence.
+    cbn; intros Ha Hb E; try discriminate E; try congruence.
+  (* Real constants in lowest terms (C01's key_const): same value, same fraction *)
+  apply andb_true_iff in Ha, Hb. destruct Ha as [D1 G1]. destruct Hb as [D2 G2].
+  apply Z.ltb_lt in D1, D2. apply Z.eqb_eq in G1, G2. injection E as E.
+  apply (SimplifierSemBase_proofs.Q2R'_eq _ _ _ _ D1 D2) in E.
+  destruct (SimplifierSemBase_proofs.lowest_terms_inj _ _ _ _ D1 D2 G1 G2 E) as [-> ->]. reflexivity.
 Qed.
 Lemma nodup_keys J : forall l, forallb key_const l = true -> nodup_terms l = true ->
   NoDup (map (fun a => to_key (eval J a)) l).
